@@ -586,3 +586,39 @@ def gen_tied(rng):
         g.io(gr.inputs, outs, sig=f"sig{si}" if nsg > 1 else "serving_default")
         info["subgraphs"].append({"sig": None, "int_inputs": [], "ops": kinds})
     return g.bytes(), info
+
+
+def gen_fanout(rng):
+    """one float tensor feeding 2..4 operators (so that per-consumer rules with different parameters
+    need several QUANTIZE ops on the same tensor); the tensor may also be a graph output"""
+    g = G()
+    g.subgraph()
+    gr = Grower(g, rng, "")
+    f = rng.choice([2, 3, 4])
+    x0 = gr.add_input([rng.randint(1, 2), f])
+    if rng.random() < 0.5:
+        gr.emit(rng.choice(["TANH", "ABS", "FULLY_CONNECTED", "RELU"]))
+    x, shp = gr.acts[-1]
+    k = rng.randint(2, 4)
+    outs = []
+    kinds = []
+    for _ in range(k):
+        kind = rng.choice(["TANH", "LOGISTIC", "GELU", "SOFTMAX", "ABS"])
+        y = gr.new_act(shp)
+        code = {"TANH": BO.TANH, "LOGISTIC": BO.LOGISTIC, "ABS": BO.ABS}.get(kind)
+        if kind == "GELU":
+            o = s.GeluOptionsT(); o.approximate = False
+            g.op(BO.GELU, [x], [y], OPT.GeluOptions, o)
+        elif kind == "SOFTMAX":
+            o = s.SoftmaxOptionsT(); o.beta = 1.0
+            g.op(BO.SOFTMAX, [x], [y], OPT.SoftmaxOptions, o)
+        else:
+            g.op(code, [x], [y])
+        gr.out(y, shp)
+        outs.append(y)
+        kinds.append(kind)
+    if rng.random() < 0.4:
+        outs.append(x)
+    g.io(gr.inputs, outs, sig="serving_default")
+    info = {"tags": {"fanout", "multi_consumer"}, "subgraphs": [{"sig": "serving_default", "int_inputs": [], "ops": gr.op_kinds + kinds}]}
+    return g.bytes(), info
